@@ -68,6 +68,41 @@ impl Engine for Pq {
             Tier::Thorough => 7usize,
         };
         let mut out = Vec::new();
+        // entries whose epochs are 2^31, 2^32 (± 1) and 2^63 apart (the counter is moved forward through the verif hook):
+        // FIFO among equal keys in the plain queue; a stale key against the new occupant of its slot in the keyed queue
+        for gap in [(1u64 << 31) - 1, 1 << 31, (1 << 31) + 1, (1 << 32) - 1, 1 << 32, (1 << 32) + 1, 1 << 63] {
+            for first in [0u64, 1, 7] {
+                let mut l = vec!["case pq".to_string()];
+                for i in 0..first {
+                    l.push(format!("ins 9 {}", 50 + i));
+                }
+                l.push("ins 5 1".into());
+                l.push(format!("setepoch {}", first + gap));
+                l.push("ins 5 2".into());
+                l.push("ins 5 3".into());
+                for _ in 0..(first + 4) {
+                    l.push("pull".into());
+                }
+                out.push(Case { lines: l });
+                let mut l = vec!["case ipq".to_string()];
+                for i in 0..first {
+                    l.push(format!("ins 9 {}", 50 + i));
+                }
+                l.push("ins 5 1".into());
+                l.push("raw".into());
+                l.push(format!("ext {first} {first}"));
+                l.push(format!("setepoch {}", first + gap));
+                l.push("ins 7 2".into());
+                l.push("raw".into());
+                l.push(format!("ext {first} {first}")); // the stale key: same slot, the old epoch
+                l.push("peek".into());
+                l.push(format!("ext {first} {}", first + gap));
+                for _ in 0..(first + 2) {
+                    l.push("pull".into());
+                }
+                out.push(Case { lines: l });
+            }
+        }
         for indexed in [false, true] {
             let mut alphabet: Vec<String> = vec!["ins 0".into(), "ins 1".into(), "ins 2".into(), "pull".into()];
             if indexed {
@@ -140,9 +175,18 @@ impl Engine for Pq {
         // the layout of the heap array and of the slab is compared after every operation of a short case and
         // after one operation in 16 of a long one
         let raw_every = len <= 120;
+        let mut epoch_est = 0u64;
         for _ in 0..len {
             if indexed && lines.len() > 1 && (raw_every || rng.chance(1, 16)) {
                 lines.push("raw".into());
+            }
+            if rng.chance(1, 40) && epoch_est < (1 << 62) {
+                // a jump of the epoch counter (as after billions of insertions)
+                epoch_est += *rng.pick(&[(1u64 << 31) - 1, 1 << 31, (1 << 32) - 2, 1 << 32, (1 << 32) + 1, 1 << 40]);
+                lines.push(format!("setepoch {epoch_est}"));
+                if indexed {
+                    shadow.set_next_epoch(epoch_est);
+                }
             }
             match rng.weighted(&[wi, wp, 1, we, if indexed { 1 } else { 0 }]) {
                 0 => {
@@ -230,6 +274,14 @@ impl Engine for Pq {
                         ties = true;
                     }
                     format!("key {i} {e}")
+                }
+                (["setepoch", e], St::Pq(q)) => {
+                    q.set_next_epoch(e.parse().unwrap());
+                    "-".into()
+                }
+                (["setepoch", e], St::Ipq(q)) => {
+                    q.set_next_epoch(e.parse().unwrap());
+                    "-".into()
                 }
                 (["pull"], St::Pq(q)) => {
                     let r = q.pull();
